@@ -16,6 +16,7 @@
 (* what the code passes today, the check re-derives the table from recorded executions and  *)
 (* re-runs TLC with it.  Happens-before bookkeeping: Machine.tla.                           *)
 (*                                                                                          *)
+(* "D" is format!("{:?}", mutex) by a thread that holds no guard.                           *)
 (* Thread programs are sequences over "L" lock, "T" try_lock, "A" access the protected      *)
 (* value through the guard (read-modify-write), "U" drop the guard; a failed try_lock       *)
 (* leaves out the rest of its section.                                                      *)
@@ -121,6 +122,36 @@ TryLockCas(t) ==
             /\ tryBad' = (tryBad \/ guards = {})
             /\ UNCHANGED guards
     /\ UNCHANGED <<pc, cur, waitq, lastW, acc, race, spur, eintr>>
+
+\* ---- impl Debug for Mutex: if let Some(guard) = self.try_lock() { read the value } and the
+\* guard is dropped at the end of the block (unlock incl. the wake); else it prints "<locked>".
+\* (The read is checked against the last write; it is not remembered as a reader - the models of
+\* the mutex know write accesses only, the trace judge treats it as a read.)
+DbgTryCas(t) ==
+    /\ pc[t] = "idle" /\ Op(t) = "D"
+    /\ Pop(t)
+    /\ IF futex = 0
+       THEN /\ Rmw(t, "TryLockCas", 1)
+            /\ guards' = guards \cup {t}
+            /\ Goto(t, "dbg_read") /\ SetCur(t, "D")
+            /\ UNCHANGED tryBad
+       ELSE /\ CasFail(t, "TryLockCas")
+            /\ tryBad' = (tryBad \/ guards = {})
+            /\ UNCHANGED <<guards, pc, cur>>
+    /\ UNCHANGED <<waitq, lastW, acc, race, spur, eintr>>
+DbgRead(t) ==
+    /\ pc[t] = "dbg_read" /\ t \in guards
+    /\ race' = (race \/ ReadRaces(knows[t], lastW))
+    /\ Goto(t, "dbg_unlock")
+    /\ UNCHANGED <<futex, cur, prog, waitq, guards, knows, pub, lastW, acc, tryBad, spur, eintr>>
+DbgUnlockSwap0(t) ==
+    /\ pc[t] = "dbg_unlock" /\ t \in guards
+    /\ Rmw(t, "UnlockSwap0", 0)
+    /\ guards' = guards \ {t}
+    /\ IF futex = 2
+       THEN Goto(t, "wake") /\ SetCur(t, "U")
+       ELSE Goto(t, "idle") /\ SetCur(t, "-")
+    /\ UNCHANGED <<prog, waitq, lastW, acc, race, tryBad, spur, eintr>>
 
 \* ---- lock_contended(): state = spin()   (first spin, before the loop)
 SpinLoad1(t) ==
@@ -228,6 +259,7 @@ Eintr(t) ==
 ThreadStep(t) ==
     \/ LockFastCas(t) \/ TryLockCas(t) \/ SpinLoad1(t) \/ SpinLoad2(t) \/ ContendedCas01(t) \/ ContendedSwap2(t)
     \/ WaitFastLoad(t) \/ FutexWait(t) \/ UnlockSwap0(t) \/ WakeNone(t) \/ Access(t)
+    \/ DbgTryCas(t) \/ DbgRead(t) \/ DbgUnlockSwap0(t)
     \/ \E w \in Threads : WakeOne(t, w)
 Next == \E t \in Threads : ThreadStep(t) \/ SpuriousWake(t) \/ Eintr(t)
 
@@ -250,7 +282,7 @@ Termination == <>[]AllDone
 \* ---- algorithm level
 TypeOK ==
     /\ futex \in 0..2
-    /\ pc \in [Threads -> {"idle", "spin1", "spin2", "cas01", "swap2", "wfload", "fwait", "parked", "wake"}]
+    /\ pc \in [Threads -> {"idle", "spin1", "spin2", "cas01", "swap2", "wfload", "fwait", "parked", "wake", "dbg_read", "dbg_unlock"}]
     /\ waitq = {t \in Threads : pc[t] = "parked"}
     /\ guards \subseteq Threads
 WordAgrees == (futex = 0) <=> (guards = {})
